@@ -361,8 +361,13 @@ fn delta_for_tx(
             }
         }
         crate::portfolio::TxActionSpecifics::Split(split_specs) => {
-            new_share_balance = pre_tx_status.share_balance
-                * split_specs.ratio.pre_to_post_factor().into();
+            // Multiply before dividing, so that eg. 99 shares in a 1-for-3 split
+            // yield exactly 33 rather than 99 * 0.333.. = 32.999..
+            new_share_balance = GreaterEqualZeroDecimal::try_from(
+                *pre_tx_status.share_balance * *split_specs.ratio.post_split
+                    / *split_specs.ratio.pre_split,
+            )
+            .map_err(|e| format!("Stock split on {}: {}", tx.trade_date, e))?;
             let share_diff = *new_share_balance - *pre_tx_status.share_balance;
             // This erroring would be strange in practice. Only if the share balance
             // was already broken.
